@@ -163,6 +163,32 @@ def check_probe(h, which, pat, fmts, regex, match_case, count):
     return bad, n
 
 
+def check_two_calls(h, pat, regex, c1, c2, seed):
+    """Two matching calls on the same object (same pattern, different counts / methods): each must equal its own fold,
+    whatever the first call may have left behind."""
+    R = explore.roles(seed)
+    v, w = build(h), build(h)
+    f1, f2 = [[R['G']]], [[R['B']]]
+    what = 'format_matching(%r, count=%r) then format_matching(%r, count=%r) [regex=%r]' % (pat, c1, pat, c2, regex)
+    try:
+        fold(w, 'fmt', pat, f1, regex, False, c1)
+        fold(w, 'fmt', pat, f2, regex, False, c2)
+        fold(w, 'unfmt', pat, f1, regex, False, -1)
+    except Exception:  # noqa
+        return []
+    try:
+        v.format_matching(pat, *[mk_settings(f) for f in f1], regex=regex, count=c1)
+        v.format_matching(pat, *[mk_settings(f) for f in f2], regex=regex, count=c2)
+        v.unformat_matching(pat, *[mk_settings(f) for f in f1], regex=regex, count=-1)
+    except Exception as e:  # noqa
+        return [('match-raises', '%s raised %s: %s' % (what, type(e).__name__, e))]
+    cv, cw = model.alpha_codes(v)[1], model.alpha_codes(w)[1]
+    if not model.cells_equiv(cv, cw):
+        return [('match-cells', '%s, then unformat_matching of the first format: %s (methods) vs loops of apply/remove: %s'
+                 % (what, cv, model.first_diff(cv, cw)))]
+    return []
+
+
 def run_unicode(task, acc):
     text = TEXTS_U[int(task['text'][1:])]
     L = len(text)
@@ -218,10 +244,24 @@ def run_task(task, acc):
                                 if n:
                                     acc.nontriv(hash((hi, task['text'], which, pat, regex, mc_, min(count, 5), repr(fmts))))
                                 acc.outcome((which, n))
+        # sequences of calls on one object
+        for regex, pats in ((False, PLAIN[:5]), (True, REGEX[:5])):
+            for pat in pats:
+                for (c1, c2) in ((1, -1), (0, -1), (2, -1), (1, 2), (-1, 1)):
+                    case = {'hist': h, 'which': 'two', 'pat': pat, 'regex': regex, 'c1': c1, 'c2': c2}
+                    acc.current = case
+                    acc.transitions += 1
+                    bad = check_two_calls(h, pat, regex, c1, c2, acc.seed)
+                    if not bad:
+                        acc.validated += 1
+                    for clause, detail in bad:
+                        acc.violation(clause, case, detail, sig=clause + ':two')
         acc.sample({'hist': h, 'which': 'fmt', 'pat': 'a', 'fmts': [['32']], 'regex': False, 'mc': False, 'count': -1})
 
 
 def replay(case):
+    if case.get('which') == 'two':
+        return check_two_calls(case['hist'], case['pat'], case['regex'], case['c1'], case['c2'], 0)
     return check_probe(case['hist'], case['which'], case['pat'], case['fmts'], case['regex'], case['mc'], case['count'])[0]
 
 
